@@ -11,3 +11,4 @@ import Dtr.Props.C16
 #print axioms Dtr.C16_errors
 #print axioms Dtr.C16_attrib_own_entry
 #print axioms Dtr.C16_text_ignores_empty_nodes
+#print axioms Dtr.C16_missing_iff
